@@ -1,5 +1,5 @@
 """C01 — parsing untrusted bytes is memory-safe and fails only as malformed-packet."""
-import os, re
+import os, re, struct
 import common as C
 import pktcommon as PC
 
@@ -76,6 +76,44 @@ def run(ctx):
     for _ in range(1500 if quick else 40000):
         add('IP', PC.ip_packet(rng, wild=True))
         add('TCP', PC.tcp_segment(rng, wild=True))
+    # option sweeps aimed at the typed option decoders (every getter is called on every accepted packet): every option code,
+    # lengths around the units of the format, and leading data bytes around the option's own size (inner length fields)
+    def lead(nn):
+        return sorted(set(x & 0xff for x in (0, 1, nn - 2, nn - 1, nn, nn + 1, 255)))
+    n_opt = 0
+    codes = list(range(0, 64)) + [rng.randrange(64, 256) for _ in range(8 if quick else 192)] if quick else list(range(256))
+    for code in codes:
+        # ICMPv6 neighbour discovery options (8-octet units) behind a router advertisement
+        for units in (1, 2, 3):
+            nn = 8 * units - 2
+            for b0 in (lead(nn) if not quick else rng.sample(lead(nn), 3)):
+                for b1 in ((0, nn - 1, nn) if not quick else (nn - 1,)):
+                    body = bytes([b0, b1 & 0xff]) + bytes(rng.randrange(256) for _ in range(nn - 2))
+                    add('ICMPv6', bytes([134, 0, 0, 0, 64, 0, 0, 30, 0, 0, 0, 0, 0, 0, 0, 0, code, units]) + body)
+                    n_opt += 1
+        # DHCP (code, length, data) and DHCPv6 (16-bit code, 16-bit length)
+        for nn in ((0, 1, 2, 3, 4, 5, 8, 9, 17) if not quick else rng.sample([0, 1, 2, 3, 4, 5, 8, 9, 17], 3)):
+            data = bytes([rng.choice(lead(nn))]) + bytes(rng.randrange(256) for _ in range(max(0, nn - 1))) if nn else b''
+            add('DHCP', bytes(236) + bytes([99, 130, 83, 99, code, nn]) + data + b'\xff')
+            add('DHCPv6', bytes([1, 1, 2, 3]) + struct.pack('>HH', code, nn) + data)
+            add('TCP', struct.pack('>HHIIBBHHH', 1, 2, 3, 4, (5 + (nn + 2 + 3) // 4) << 4, 0x10, 100, 0, 0) + (bytes([code, nn + 2]) + data + bytes(3))[:4 * ((nn + 2 + 3) // 4)])
+            add('PPPoE', bytes([0x11, 9]) + struct.pack('>HH', 0, 4 + nn) + struct.pack('>HH', code, nn) + data)
+            n_opt += 4
+    # DNS names whose decoded length sits around the 255-character limit, plain and reached through a pointer
+    for total in range(248, 262):
+        for shape in range(3 if quick else 8):
+            labels, left = [], total
+            while left > 0:
+                ln = min(63, left - 1 if left > 1 else 1, rng.choice([63, 63, 62, 31, 1, 2])) if left > 1 else 1
+                ln = max(1, min(ln, left - (1 if left > ln + 1 else 0)))
+                labels.append(ln)
+                left -= ln + 1
+            name = b''.join(bytes([l]) + bytes(rng.choice(b'abcdefghijklmnopqrstuvwxyz') for _ in range(l)) for l in labels) + b'\0'
+            hdr = struct.pack('>HHHHHH', 0x1234, 0x8180, 1, 1, 0, 0)
+            add('DNS', hdr + name + struct.pack('>HH', 1, 1) + b'\xc0\x0c' + struct.pack('>HHIH', 1, 1, 60, 4) + bytes([1, 2, 3, 4]))
+            add('DNS', hdr + name + struct.pack('>HH', 1, 1) + b'\x03www\xc0\x0c' + struct.pack('>HHIH', 5, 1, 60, len(name)) + name)
+            n_opt += 2
+    ctx.notes['aimed_option_and_name_cases'] = n_opt
     h = C.run_harness('h_pkt', scripts)
     ctx.cov['evaluations'] += len(scripts)
     nontriv, seen, reported, kinds, recovered = set(), set(), 0, {}, {}
